@@ -108,7 +108,7 @@ def classify_exc(e, sock):
     """None if the exception is acceptable, else a short class name."""
     if isinstance(e, lib.websocket.WebSocketException):
         return None
-    if any(e is r for r in sock.raised):
+    if any(e is r for r in sock.raised) or getattr(e, "from_transport", False):
         return None
     return type(e).__name__
 
@@ -135,10 +135,16 @@ def hs_case(resp, ending, redirect_limit=None, subprotocols=None):
         kw["redirect_limit"] = redirect_limit
     if subprotocols:
         kw["subprotocols"] = list(subprotocols)
+    # a followed redirect opens a new transport: that one lives on the simulated network (every address refuses), never on the real one
+    import errno as _errno
+    rnet = simnet.Net()
+    rnet.dial = lambda n_, s_, a_: _errno.ECONNREFUSED
+    simnet.install(rnet, tls=True)
     try:
         ws.connect("ws://example.com/chat", socket=sock, **kw)
         out = ("ret",)
     except env.Spin as e:
+        simnet.uninstall()
         return ({"kind": "spin", "phase": "handshake"}, "connect() kept calling the transport without progress: %s" % e)
     except Exception as e:
         c = classify_exc(e, sock)
@@ -148,6 +154,8 @@ def hs_case(resp, ending, redirect_limit=None, subprotocols=None):
             return ({"kind": "internal-error", "phase": "handshake", "exc": c, "where": where},
                     "connect() failed with %s (%s) in %s on response %.80r + %s" % (c, str(e)[:80], where, resp if not callable(resp) else "<computed>", ending))
         out = ("exc", type(e).__name__)
+    finally:
+        simnet.uninstall()
     big = [n for n in sock.sizes if not isinstance(n, int) or n > 16384 or n <= 0]
     if big:
         return ({"kind": "peer-sized-read", "phase": "handshake"}, "connect() asked the transport for %r bytes on response %.80r" % (big[0], resp if not callable(resp) else "<computed>"))
@@ -403,7 +411,8 @@ def run_task(desc):
     elif part == "hs-special":
         specials = []
         for status in (b"101", b"200", b"301", b"302", b"400", b"404", b"500", b"0", b"99", b"1000", b"-1", b"1e2", b"", b" "):
-            for hdrs in ([], [b"Location: ws://h/"], [b"Location:"], [b"Content-Length: 5"], [b"Content-Length: 99999999999"], [b"Content-Length: -1"],
+            for hdrs in ([], [b"Location: ws://h/"], [b"Location:"], [b"Location: ws://[::1/chat"], [b"Location: ws://[zz]/"], [b"Location: ws://h\xe2\x84\x80x/"],
+                         [b"Location: ws://h:99999999/"], [b"Location: ws://h:port/"], [b"Location: //h/x"], [b"Location: ws:///nohost"], [b"Location: ws://user:p@ss@h/"], [b"Location: ws://h/\xff"], [b"Content-Length: 5"], [b"Content-Length: 99999999999"], [b"Content-Length: -1"],
                          [b"Content-Length: abc"], [b"Content-Length: 131072"], [b"Content-Length: 4294967296"], [b"Content-Length: 4611686018427387904"],
                          [b"Content-Length: 0"], [b"Content-Length: 1\xc2\xb2"], [b"Content-Length: \xe2\x91\xa0"], [b"Content-Length: \xd9\xa3"], [b"Content-Length: +5"],
                          [b"Content-Length: 5 "], [b"Content-Length: 0x10"], [b"Content-Length: 1_0"], [b"Content-Length: " + b"9" * 5000], [b"Content-Length: 5.0"], [b"NoColonHere"], [b": empty-name"], [b"X: \xff\xfe"], [b"Upgrade: websocket", b"Connection: Upgrade"]):
